@@ -64,7 +64,8 @@ MsgA(q)  == <<F("c", NatT("char"), 0), F("d", NatT(q.n4), 0),                   
 DefsOf(q) == [INNER |-> Inner(q), MID |-> Mid(q), MSG_A |-> MsgA(q), MSG_B |-> MsgA(q)]     \* MSG_B: field-list reuse of MSG_A
 StructNames == {"INNER", "MID"}
 (* one signal and one constant whose names are longer than the 48-column padding the C back end uses for its #define lines *)
-MsgIds == [SIG |-> 1000, MSG_A |-> 1001, MSG_B |-> 1002, SIGNAL_WITH_A_NAME_THAT_GOES_PAST_COLUMN_FORTY_EIGHT |-> 1040]
+(* FMT_DATA / AMID_SHIP / CHID_X: legal identifiers that CONTAIN the prefixes the outputs put in front of ids (MT_, MID_, HID_) *)
+MsgIds == [SIG |-> 1000, MSG_A |-> 1001, MSG_B |-> 1002, SIGNAL_WITH_A_NAME_THAT_GOES_PAST_COLUMN_FORTY_EIGHT |-> 1040, FMT_DATA |-> 1041, MT_LEAD |-> 1042]
 
 RECURSIVE KindOf(_, _), SizeOfDef(_, _), AlignOfDef(_, _), Padded(_, _)
 KindOf(q, f) ==
@@ -95,7 +96,7 @@ Signature(q) ==
    ids |-> MsgIds,
    constants |-> [K |-> q.k, K2 |-> K2(q), BIG |-> q.k * 1000 + 7, CONSTANT_WITH_A_NAME_THAT_GOES_PAST_COLUMN_FORTY_EIGHT |-> 77],
    ratios |-> [HALF |-> <<q.k, 2>>, INV |-> <<1, q.k>>, SPAN |-> <<q.k * 2 + 1, 2>>],     \* constant expressions with a division: numerator / denominator
-   mids |-> [MYMOD |-> 12], hids |-> [MYHOST |-> 10],
+   mids |-> [MYMOD |-> 12, AMID_SHIP |-> 13], hids |-> [MYHOST |-> 10, CHID_X |-> 11],
    reserved |-> {1003, 1005, 1006, 1007}]
 
 Init == p \in Params
